@@ -68,7 +68,7 @@ def facts(ctx):
     body = vlib.strip_go_comments(vlib.go_func_body("compiler/mpa/mpint.go", r"\(z \*Int\) bin\(") or "")
     ctx.fact("mpa.Int.bin: both operands and the result have max(x.bits, y.bits, z.bits) wires",
              [bool(re.search(r"size := max\(max\(x\.bits, y\.bits\), z\.bits\)", body)),
-              re.findall(r'newIOArg\("(\w)", types\.TInt, (\w+)\)', body)],
+              [list(x) for x in re.findall(r'newIOArg\("(\w)", types\.TInt, (\w+)\)', body)]],
              [True, [["x", "size"], ["y", "size"], ["z", "size"]]])
     body = vlib.strip_go_comments(vlib.go_func_body("compiler/ssa/generator.go", r"\(gen \*Generator\) Constant\(") or "")
     part = body[body.find("case *mpa.Int:"):body.find("case bool:")]
